@@ -3,6 +3,7 @@ package rules
 
 import (
 	"sort"
+	"strings"
 
 	"verif/checker/eng"
 )
@@ -27,3 +28,59 @@ type PropMeta struct {
 }
 
 var Meta = map[string]PropMeta{}
+
+// Includes lists, per property, rules owned by ANOTHER property that are also
+// necessary conditions of this one, because this property's statement relies on
+// the mechanism the rule protects (rule-id prefixes). A violation of such a rule
+// is reported under every property that includes it. The test for inclusion is
+// the same as for any rule: breaking the rule must break THIS property for some
+// input. Agreement properties (C19: predictor vs verifier) deliberately do not
+// include rules on machinery shared by both sides — a shared flaw keeps them in
+// agreement.
+var Includes = map[string][]string{
+	// the verdict of verification = trusted policy in force (C02) × rules consulted (C06) ×
+	// threshold counting (C05) × approvals (C09) × every changed path judged (C10) ×
+	// global rules (C11) × recovery gates (C07) × readers that fail closed (C04)
+	"C01": {"C02.effective-only", "C04.errors-propagate", "C04.stepper-checks", "C05.", "C06.match-gates", "C06.enter-once", "C06.pre-order", "C06.unprotected", "C07.", "C09.", "C10.every-path", "C10.gate", "C11."},
+	// metadata signatures are counted by SignatureVerifier.Verify
+	"C02": {"C05.sanity", "C05.git-once", "C05.dedup", "C05.success-iff", "C05.pae"},
+	// single chain: the append is a CAS on the parent the number was derived from
+	"C03": {"C17.cas", "C17.single-read"},
+	// readers answer through the process-wide cache: only validated links may enter it
+	"C04": {"C17.shared-state"},
+	// the walk never examines the last rule of a file: sound only if that is the allow rule
+	"C06": {"C13.allow-last"},
+	"C08": {"C05.immutable-verifier"},
+	// once per principal
+	"C09": {"C05.consumer", "C05.dedup"},
+	// 'verified descendants that verification accepts': Apply relies on these checks
+	"C12": {"C02.new-state", "C02.rollback", "C02.self-verify"},
+	// one CAS-guarded commit per entry
+	"C16": {"C03.one-append", "C03.entry-shape", "C17.cas"},
+	"C17": {"C03.number", "C03.entry-shape", "C04.stepper-checks"},
+	// names move through the same plumbing calls
+	"C18": {"C10.nul-protocol"},
+	// a stale 'latest' state breaks the prediction only
+	"C19": {"C08.latest-reads-tip"},
+}
+
+// RulesFor returns the rules evaluated for a property: its own plus the included ones.
+func RulesFor(prop string) []*eng.Rule {
+	var out []*eng.Rule
+	seen := map[string]bool{}
+	for _, r := range All() {
+		if r.Prop == prop {
+			out = append(out, r)
+			seen[r.ID] = true
+		}
+	}
+	for _, pre := range Includes[prop] {
+		for _, r := range All() {
+			if !seen[r.ID] && (r.ID == pre || (strings.HasSuffix(pre, ".") && strings.HasPrefix(r.ID, pre))) {
+				out = append(out, r)
+				seen[r.ID] = true
+			}
+		}
+	}
+	return out
+}
